@@ -33,7 +33,14 @@ TOK_TOP = _tok('syntax = PROTO3 ; import package option message enum service ext
 TOK_BODY = _tok('reserved extensions 1 a STR , to max ; } = [ ] optional map < > oneof group { option ( ) . - default int32')
 TOK_BODY_CORE = _tok('reserved extensions 1 a STR , to max ; } = [ ] - { (')
 TOK_SVC = _tok('rpc a ( ) returns stream . { } ; option = 1 M')
-PRE_MSG, PRE_ENUM, PRE_SVC, PRE_OPT = "msg", "enum", "svc", "opt"      # prefixes defined in MCLexInput.tla
+PRE_MSG, PRE_ENUM, PRE_SVC, PRE_OPT = "msg", "enum", "svc", "opt"      # contexts defined in MCLexInput.tla
+HDRS = ("p2", "p3", "e23")                                               # headers defined in MCLexInput.tla
+# declaration bodies: message / extend / oneof body under proto2 / proto3 / edition 2023 headers
+TOK_DECL = _tok('optional repeated group G a a.b (x) = 1 { } ; int32 map < > oneof extensions reserved to max option [ ]')
+TOK_GROUP = _tok('G a a.b (x) = 1 { } ;')
+# byte families for line endings (CR, CRLF inside and after comments)
+CRLF = ["sl", "a", "cr", "lf", "sp", "sc"]
+CRLF_BLOCK = ["sl", "st", "cr", "lf"]
 TOK_EXPR = _tok('a 1 STR - . , : { } [ ] < > ( ) ;')
 
 GEN_CFG = """SPECIFICATION Spec
@@ -41,7 +48,8 @@ CONSTANTS
   MaxLen = %d
   ExportMin = %d
   Alphabet = {%s}
-  PrefixName = "%s"
+  PrefixName = {%s}
+  Headers = {%s}
 INVARIANTS Export
 CHECK_DEADLOCK FALSE
 """
@@ -147,18 +155,20 @@ def _q(sym):
     return '"%s"' % sym
 
 
-def _gen_exh(wd, cases, name, alphabet, maxlen, exportmin, simulate=None, workers=4, prefix=""):
+def _gen_exh(wd, cases, name, alphabet, maxlen, exportmin, simulate=None, workers=4, prefix="", headers=()):
     cfg = "MCLexInput_%s.cfg" % name
     os.makedirs(os.path.join(wd, "gen_" + name), exist_ok=True)
     with open(os.path.join(wd, "gen_" + name, cfg), "w") as fh:
-        fh.write(GEN_CFG % (maxlen, exportmin, ", ".join(_q(a) for a in alphabet), prefix or "none"))
+        fh.write(GEN_CFG % (maxlen, exportmin, ", ".join(_q(a) for a in alphabet),
+                            ", ".join(_q(c) for c in ((prefix,) if isinstance(prefix, str) else prefix)) if prefix else _q("none"),
+                            ", ".join(_q(h) for h in headers) if headers else _q("none")))
     sink, box = cases.counting()
     r = _tlc("MCLexInput", cfg, os.path.join(wd, "gen_" + name), workers=1 if simulate else workers, simulate=simulate,
                depth=(maxlen + 1) if simulate else None, tseed=vf.seed() if simulate else None,
                case_sink=sink, timeout=1500, heap="4g")
     if r.violated:
         raise vf.MachineryError("MCLexInput: unexpected violation " + str(r.violated))
-    return {"run": name, "alphabet": len(alphabet), "prefix": prefix or "", "maxlen": maxlen, "exportmin": exportmin,
+    return {"run": name, "alphabet": len(alphabet), "prefix": prefix or "", "headers": list(headers), "maxlen": maxlen, "exportmin": exportmin,
             "simulate": simulate,
             "states": r.distinct, "generated": r.generated, "cases": box[0]}
 
@@ -176,6 +186,7 @@ def _gen_mut(wd, binary, cases, files, stride, depths, workers=4):
     with open(os.path.join(gd, "ExpLexFiles.tla"), "w") as fh:
         fh.write("---- MODULE ExpLexFiles ----\n(* generated: byte length and leaf-token byte lengths of each base file *)\n")
         fh.write("FileBytes == <<%s>>\n" % ", ".join(str(d["bytes"]) for d in desc))
+        fh.write("FileLFs == <<%s>>\n" % ", ".join(str(d["lfs"]) for d in desc))
         fh.write("FileTokLens == <<%s>>\n" % ", ".join("<<%s>>" % ", ".join(map(str, d["toklens"])) for d in desc))
         fh.write("====\n")
     cfg = "MCLexMutant_run.cfg"
@@ -329,29 +340,45 @@ def _plan(tier, prop):
     if tier == "thorough":
         if prop == "parse":      # short traces that repeat a lot: go deeper on inputs
             return {
-                "exh": [("full", FULL, 3, 0), ("mid", MID, 4, 4), ("core", CORE, 5, 5), ("core2", CORE2, 5, 5)],
+                "exh": [("full", FULL, 3, 0), ("mid", MID, 4, 4), ("core", CORE, 5, 5), ("core2", CORE2, 4, 4),
+                        ("crlf", CRLF, 5, 3)],
                 "sim": [("sim", FULL, 24, 100), ("simcore", CORE, 16, 200)],
                 "tok": [("toktop", TOK_TOP, 4, 1, ""), ("tokmsg", TOK_BODY, 3, 1, PRE_MSG), ("tokmsg4", TOK_BODY_CORE, 4, 4, PRE_MSG),
-                        ("tokmsg5", TOK_BODY_CORE[:10], 5, 5, PRE_MSG), ("tokenum", TOK_BODY_CORE, 3, 1, PRE_ENUM),
-                        ("toksvc", TOK_SVC, 4, 1, PRE_SVC), ("tokopt", TOK_EXPR, 4, 1, PRE_OPT)],
+                        ("tokenum", TOK_BODY_CORE, 3, 1, PRE_ENUM),
+                        ("toksvc", TOK_SVC, 4, 1, PRE_SVC), ("tokopt", TOK_EXPR, 4, 1, PRE_OPT),
+                        ("decl3", TOK_DECL, 3, 1, ("msg", "ext", "oneof"), HDRS),
+                        ("decl4", TOK_DECL, 4, 4, ("msg",), ("p2",)),
+                        ("group5", TOK_GROUP, 5, 0, ("msg.group",), HDRS),
+                        ("group4x", TOK_GROUP, 4, 0, ("msg.optgroup", "ext.group", "oneof.group"), HDRS),
+                        ("declsim5", TOK_DECL, 5, 5, ("msg", "ext", "oneof"), HDRS, 400),
+                        ("declsim6", TOK_DECL, 6, 6, ("msg", "ext", "oneof"), HDRS, 400)],
                 "stride": 29, "depths": [1, 3, 64, 2000],
                 "chunk": 400000, "gen_workers": 3, "gen_parallel": 3, "files_small": 40, "files_large": 2,
             }
         return {                  # one trace per input (it carries the bytes): fewer, but every token is validated
-            "exh": [("full", FULL, 3, 0), ("mid", MID4, 4, 4), ("core", CORE, 5, 5), ("core2", CORE2, 4, 4)],
+            "exh": [("full", FULL, 3, 0), ("mid", MID4, 4, 4), ("core", CORE, 5, 5), ("core2", CORE2, 4, 4),
+                    ("crlf", CRLF, 6, 4), ("crlfblock", CRLF_BLOCK, 8, 5)],
             "sim": [("sim", FULL, 24, 100), ("simcore", CORE, 16, 200)],
             "stride": 131, "depths": [1, 3, 64],
             "chunk": 400000, "gen_workers": 3, "gen_parallel": 3, "files_small": 40, "files_large": 1,
         }
     return {
-        "exh": [("full", FULL, 2, 0), ("mid", MID4, 3, 3), ("core", CORE, 4, 4)],
+        "exh": [("full", FULL, 2, 0), ("mid", MID4, 3, 3), ("core", CORE, 4, 4)] +
+               ([("crlf", CRLF, 5, 3), ("crlfblock", CRLF_BLOCK, 6, 5)] if prop == "lex" else []),
         # tlc -simulate checks the export invariant on every successor of the last step: num x |alphabet| cases
         "sim": [("sim", FULL, 16, 30), ("simcore", CORE, 10, 60)],
-        "tok": [("tokmsg", TOK_BODY_CORE, 3, 1, PRE_MSG), ("tokmsg4", TOK_BODY_CORE[:10], 4, 4, PRE_MSG),
-                ("toksvc", TOK_SVC[:10], 3, 1, PRE_SVC)] if prop == "parse" else [],
+        "tok": [("tokmsg4", TOK_BODY_CORE[:10], 4, 4, PRE_MSG), ("toksvc", TOK_SVC[:10], 3, 1, PRE_SVC),
+                # declaration bodies: exhaustive to 3 tokens in a proto2 message body, to 2 in every header x body kind;
+                # longer ones (4 and 5 tokens) by tlc -simulate (VERIF_SEED); after `group`: exhaustive to 3 more tokens
+                # in every header x body kind, to 4 in a proto2 message body
+                ("decl3", TOK_DECL, 3, 1, ("msg",), ("p2",)),
+                ("decl2x", TOK_DECL, 2, 1, ("msg", "ext", "oneof"), HDRS),
+                ("group4", TOK_GROUP, 3, 0, ("msg.group", "msg.optgroup", "ext.group", "oneof.group"), HDRS),
+                ("group5", TOK_GROUP, 4, 4, ("msg.group",), ("p2",)),
+                ("declsim", TOK_DECL, 5, 4, ("msg", "ext", "oneof"), HDRS, 60)] if prop == "parse" else [],
         "stride": 61 if prop == "parse" else 131,
         "depths": [2, 40],
-        "chunk": 120000, "gen_workers": 2, "gen_parallel": 6, "files_small": 6, "files_large": 0,
+        "chunk": 120000, "gen_workers": 2, "gen_parallel": 7, "files_small": 6, "files_large": 0,
     }
 
 
@@ -414,9 +441,12 @@ def run(pid, tier, replay=None):
             jobs.append(lambda a=(name, alpha, maxlen, exportmin): _gen_exh(wd, cases, *a, workers=plan["gen_workers"]))
         for name, alpha, maxlen, num in plan["sim"]:
             jobs.append(lambda a=(name, alpha, maxlen, maxlen, num): _gen_exh(wd, cases, *a))
-        for name, alpha, maxlen, exportmin, prefix in plan.get("tok", []):
-            jobs.append(lambda a=(name, alpha, maxlen, exportmin), pre=prefix: _gen_exh(
-                wd, cases, *a, workers=plan["gen_workers"], prefix=pre))
+        for ent in plan.get("tok", []):
+            name, alpha, maxlen, exportmin, prefix = ent[:5]
+            hdrs = ent[5] if len(ent) > 5 else ()
+            sim = ent[6] if len(ent) > 6 else None
+            jobs.append(lambda a=(name, alpha, maxlen, exportmin), pre=prefix, h=hdrs, sm=sim: _gen_exh(
+                wd, cases, *a, simulate=sm, workers=plan["gen_workers"], prefix=pre, headers=h))
         jobs.append(lambda: _gen_mut(wd, binary, cases, files, plan["stride"], plan["depths"], workers=plan["gen_workers"]))
         for res in _parallel(jobs, plan["gen_parallel"]):
             if isinstance(res, tuple):
